@@ -973,6 +973,14 @@ def instances(tier):
             for partial in (0, 1):
                 for ww in sorted({0, max(c - 1, 0), 1, c}):
                     add("Select", {"c": c, "ops": ops, "ww": ww, "partial": partial}, ALL if (c == 2 and len(ops) == 3) else SEQ)
+    # four control wires: the unary-iterator ladders only become longer than one elbow from c = 4 on; EVERY operand count K = 1..16
+    cyc = ["X0", "Y0", "Z1", "SWAP", "RZ0", "X1", "H0", "CNOT", "RX1", "I", "H0RY1", "X0", "Z1", "Y0", "SWAP", "U2q"]
+    for K in range(1, 17):
+        for partial in (0, 1):
+            if partial and not thorough and K not in (3, 6, 10, 11, 16):
+                continue
+            for ww in ((3,) if not thorough else (0, 3, 4)):
+                add("Select", {"c": 4, "ops": cyc[:K], "ww": ww, "partial": partial}, SEQ)
     # QROM: all tables of 2..4 bitstrings of width 1..2
     for width in (1, 2):
         rows = list(itertools.product((0, 1), repeat=width))
@@ -993,6 +1001,10 @@ def instances(tier):
                 if sum(sum(r) for r in bits) % 3 == 1:
                     add("QROM", {"bits": bits, "c": cmin + 1, "ww": 1, "clean": 1}, SEQ)
                     add("QROM", {"bits": bits, "c": cmin, "ww": 2, "clean": 1, "strs": 1}, TWO)
+    for cnt in ((10, 11) if not thorough else (9, 10, 11, 13, 14, 15, 16)):      # QROM with four control wires (uses the Select ladders)
+        bits = [[(i * 5 + 1) % 2, (i // 2) % 2] for i in range(cnt)]
+        add("QROM", {"bits": bits, "c": 4, "ww": 3, "clean": 1}, SEQ)
+        add("QROM", {"bits": bits, "c": 4, "ww": 3, "clean": 0}, SEQ)
     # QFT / AQFT
     for n in range(1, 5 if not thorough else 6):
         add("QFT", {"n": n}, ALL)
